@@ -14,7 +14,7 @@ import (
 func init() {
 	Register("C05", &Info{
 		Run:   runC05,
-		Quick: 9000, Thor: 300000,
+		Quick: 9000, Thor: 1200000,
 		Rule: "a world = one fingerprint whose spec carries a BoringSSL-style padding extension (every such predefined parrot by stratum, randomized seeds, generated specs with padding) x server-name length swept 0..255 by run index x ALPN list x optional cached session (ticket / real PSK change the unpadded length) x optional HelloRetryRequest; every hello on the wire is checked against the BoringSSL rule recomputed from the wire bytes; second half: a padded capture is fingerprinted and replayed with a different server name of equal length and must reproduce the captured total length; non-trivial = the spec has a padding extension and a hello reached the wire; distinct = (fingerprint, unpadded length)",
 		Assumptions: []string{"'unpadded length' is the handshake message including its 4-byte header minus the padding extension, as in BoringSSL's ssl_add_clienthello_tlsext"},
 		Real:        []string{"utls client from /repo", "utls or std server"},
